@@ -194,7 +194,9 @@ func c09Cases(c *Ctx) []rawCase {
 		{"slice-elem", func(b string) (string, string) { return "", "[]" + b }},
 		{"array-elem", func(b string) (string, string) { return "", "[2]" + b }},
 		{"map-value", func(b string) (string, string) { return "", "map[string]" + b }},
-		{"struct-field", func(b string) (string, string) { return "type S struct {\n\tA int\n\tX " + b + "\n\tB string\n}\n", "*S" }},
+		{"struct-field", func(b string) (string, string) {
+			return "type S struct {\n\tA int\n\tX " + b + "\n\tB string\n}\n", "*S"
+		}},
 		{"struct-value", func(b string) (string, string) { return "type S struct {\n\tA int\n\tX " + b + "\n}\n", "S" }},
 		{"field-slice", func(b string) (string, string) { return "type S struct {\n\tX []" + b + "\n}\n", "*S" }},
 		{"field-ptr", func(b string) (string, string) { return "type S struct {\n\tX *" + b + "\n}\n", "*S" }},
@@ -204,7 +206,9 @@ func c09Cases(c *Ctx) []rawCase {
 			return "type In struct {\n\tX " + b + "\n}\n\ntype S struct {\n\tI In\n\tP *In\n\tL []In\n}\n", "*S"
 		}},
 		{"slice-of-struct", func(b string) (string, string) { return "type S struct {\n\tX " + b + "\n}\n", "[]S" }},
-		{"map-of-ptr-struct", func(b string) (string, string) { return "type S struct {\n\tX map[string][]" + b + "\n}\n", "map[string]*S" }},
+		{"map-of-ptr-struct", func(b string) (string, string) {
+			return "type S struct {\n\tX map[string][]" + b + "\n}\n", "map[string]*S"
+		}},
 	}
 	type opd struct {
 		name string
@@ -218,13 +222,19 @@ func c09Cases(c *Ctx) []rawCase {
 		{"clone", func(T string) string { return "func use(a " + T + ") " + T + " { return deriveClone(a) }" }},
 		{"deepcopy", func(T string) string { return "func use(a, b " + T + ") { deriveDeepCopy(a, b) }" }},
 		{"gostring", func(T string) string { return "func use(a " + T + ") string { return deriveGoString(a) }" }},
-		{"contains", func(T string) string { return "func use(l []" + T + ", a " + T + ") bool { return deriveContains(l, a) }" }},
+		{"contains", func(T string) string {
+			return "func use(l []" + T + ", a " + T + ") bool { return deriveContains(l, a) }"
+		}},
 		{"unique", func(T string) string { return "func use(l []" + T + ") []" + T + " { return deriveUnique(l) }" }},
 		{"sort", func(T string) string { return "func use(l []" + T + ") []" + T + " { return deriveSort(l) }" }},
-		{"min", func(T string) string { return "func use(l []" + T + ", a " + T + ") " + T + " { return deriveMin(l, a) }" }},
+		{"min", func(T string) string {
+			return "func use(l []" + T + ", a " + T + ") " + T + " { return deriveMin(l, a) }"
+		}},
 		{"max2", func(T string) string { return "func use(a, b " + T + ") " + T + " { return deriveMax(a, b) }" }},
 		{"union", func(T string) string { return "func use(a, b []" + T + ") []" + T + " { return deriveUnion(a, b) }" }},
-		{"intersect", func(T string) string { return "func use(a, b []" + T + ") []" + T + " { return deriveIntersect(a, b) }" }},
+		{"intersect", func(T string) string {
+			return "func use(a, b []" + T + ") []" + T + " { return deriveIntersect(a, b) }"
+		}},
 		{"mem", func(T string) string {
 			return "func f(a " + T + ") int { return 1 }\n\nfunc use() func(" + T + ") int { return deriveMem(f) }"
 		}},
